@@ -7,11 +7,11 @@ cd /repo || exit 2
 if ! git diff --quiet; then echo "/repo has uncommitted changes"; exit 2; fi
 if ! git apply "$patch"; then echo "patch does not apply: $patch"; exit 2; fi
 export GOFLAGS=-mod=mod GOPROXY=off GOSUMDB=off GOTOOLCHAIN=local
-if ! go build ./... >/dev/null 2>&1; then echo "patched tree does not build"; git checkout -- .; exit 2; fi
+if ! go build ./... >/dev/null 2>&1; then echo "patched tree does not build"; git apply -R "$patch" 2>/dev/null || git checkout -- .; exit 2; fi
 cd /verif
 for id in "$@"; do
   out=$(./check "$id" --tier "$tier" 2>&1); rc=$?
   echo "== $id rc=$rc $(echo "$out" | grep -c '^VIOLATION') violations; $(echo "$out" | grep -m1 -A1 '^VIOLATION' | tail -1 | cut -c1-300)"
 done
-git -C /repo checkout -- .
+git -C /repo apply -R "$patch" 2>/dev/null || git -C /repo checkout -- .
 git -C /repo status --short | head -3
